@@ -66,6 +66,10 @@ func genSchedSpec(p *schedParams, c *Corpus, run int, cold bool) *RunSpec {
 	// documents
 	var docs [][]byte
 	herd := rd.Chance(1, 2)
+	if deepBuild && !herd {
+		// scheduling points inside goldmark pay off when neighbours exercise the same construct
+		herd = rd.Split("deep-herd").Chance(1, 2)
+	}
 	switch {
 	case c15:
 		// collision-dense heading documents, all workers on the same shared instance
